@@ -27,10 +27,10 @@ BASE = [
     B('uint16', ['0', '1', '65535', '513']),
     B('uint64', ['0', '1', '1<<63', '^uint64(0)']),
     B('uintptr', ['0', '1', '0xdeadbeef']),
-    B('float32', ['0', '1.5', 'float32(math.Copysign(0, -1))', '-2.25', '3.4e38', '0']),
-    B('float64', ['0', 'math.Copysign(0, -1)', '1.5', '-2.25', '1.7e308', '5e-324', '0']),
+    B('float32', ['0', '1.5', 'float32(math.Copysign(0, -1))', '-2.25', '3.4e38', 'float32(math.NaN())', '0']),
+    B('float64', ['0', 'math.Copysign(0, -1)', '1.5', '-2.25', '1.7e308', '5e-324', 'math.NaN()', 'math.Inf(-1)', '0']),
     B('complex64', ['0', 'complex(float32(math.Copysign(0, -1)), 0)', 'complex(1, 2)', 'complex(-3.5, 4)']),
-    B('complex128', ['0', 'complex(0, math.Copysign(0, -1))', 'complex(1, 2)', 'complex(-3.5, 4e100)']),
+    B('complex128', ['0', 'complex(0, math.Copysign(0, -1))', 'complex(1, 2)', 'complex(-3.5, 4e100)', 'complex(math.NaN(), 1)']),
     B('string', ['""', '"a"', '"h\\u00e9llo"', '"a longer string value 0123456789"']),
     B('[]byte', ['nil', '[]byte{}', '[]byte{1, 2, 3}', '[]byte("xyz")'], canon='[]uint8'),
     B('[]int', ['nil', '[]int{1}', '[]int{1, 2, 3}']),
@@ -45,14 +45,14 @@ BASE = [
     B('*int', ['nil', 'pInt1', 'pInt2']),
     B('*string', ['nil', 'pStr1', 'pStr2']),
     B('map[string]int', ['nil', 'm1', 'm2']),
-    B('any', ['nil', '1', '"s"', '2.5', 'pInt1', '[2]int{1, 2}', '[]int{7}', '[]int{8, 9}', 'map[string]int{"z": 1}', 'map[string]int{"y": 2}'], canon='interface {}'),
+    B('any', ['nil', '1', '"s"', '2.5', 'math.NaN()', 'pInt1', '[2]int{1, 2}', '[]int{7}', '[]int{8, 9}', 'map[string]int{"z": 1}', 'map[string]int{"y": 2}'], canon='interface {}'),
     B('error', ['nil', 'errA', 'io.EOF']),
     B('fmt.Stringer', ['nil', 'strImpl("a")', 'strImpl("bb")']),
     B('chan int', ['nil', 'ch1', 'ch2']),
     B('MyStr', ['MyStr("")', 'MyStr("q")', 'MyStr("named")'], canon='main.MyStr'),
     B('MyInt', ['MyInt(0)', 'MyInt(-7)', 'MyInt(1 << 30)'], canon='main.MyInt'),
     B('MyBytes', ['MyBytes(nil)', 'MyBytes{9, 8}', 'MyBytes("ab")'], canon='main.MyBytes'),
-    B('MyF', ['MyF(0)', 'MyF(math.Copysign(0, -1))', 'MyF(2.5)', 'MyF(-1e9)'], canon='main.MyF'),
+    B('MyF', ['MyF(0)', 'MyF(math.Copysign(0, -1))', 'MyF(2.5)', 'MyF(-1e9)', 'MyF(math.NaN())'], canon='main.MyF'),
     B('MyI8', ['MyI8(0)', 'MyI8(-128)', 'MyI8(127)'], canon='main.MyI8'),
     # two packages with the same package name declaring a type of the same name: reflect's String() is "x.Str" for both
     B('xa.Str', ['xa.Str("")', 'xa.Str("pa")', 'xa.Str("from package a")'], canon='optgen/sa/x.Str'),
@@ -62,7 +62,7 @@ BASE = [
     B('struct {\n\tA int8\n\tB int64\n}', ['struct {\n\tA int8\n\tB int64\n}{1, 2}', 'struct {\n\tA int8\n\tB int64\n}{-1, 5}', 'struct {\n\tA int8\n\tB int64\n}{}'], canon='struct { A int8; B int64 }'),
 ]
 BYGO = {t.go: t for t in BASE}
-EMBEDDABLE_NAMED = ['MyStr', 'MyInt', 'MyF', 'MyI8', 'MyBytes']   # named non-struct types that may be embedded
+EMBEDDABLE_NAMED = ['MyStr', 'MyInt', 'MyF', 'MyI8', 'MyBytes', 'fmt.Stringer', 'error']   # named non-struct types that may be embedded (interfaces too: their methods are promoted, the field is an entry like any other)
 
 # near misses: focus types that must NOT be accepted for a field of the key type
 NEAR = {
@@ -188,10 +188,12 @@ class Gen:
                 st.fields.append(Field(sub.name, None, tag, embedded=True, ptr=True, struct=sub))
             elif x < 0.27:
                 cand = [n for n in EMBEDDABLE_NAMED if n not in used]
+                cand = [n for n in cand if n.split('.')[-1] not in used]
                 if cand:
                     n = r.choice(cand)
                     used.add(n)
-                    st.fields.append(Field(n, BYGO[n], tag, embedded=True))
+                    used.add(n.split('.')[-1])
+                    st.fields.append(Field(n.split('.')[-1], BYGO[n], tag, embedded=True))
                     continue
                 st.fields.append(Field(fname(), r.choice(BASE), tag))
             elif depth < 3 and x < 0.33:
@@ -199,8 +201,22 @@ class Gen:
                 if r.random() < 0.4:   # a large intermediate struct
                     sub.fields.insert(r.randrange(len(sub.fields) + 1), Field('Big%d' % len(sub.fields), BYGO[r.choice(['[40]int64', '[33]string', '[1100]byte'])]))
                 st.fields.append(Field(fname(), None, tag, embedded=False, ptr=r.random() < 0.25, struct=sub))
+            elif x > 0.96:
+                # a blank field: it cannot be named or selected, but it is a field of the struct and takes its place
+                st.fields.append(Field('_', r.choice([BYGO[t] for t in ('int8', 'int32', 'string', 'uint16', '[3]int16', 'bool')])))
             else:
                 st.fields.append(Field(fname(), r.choice(BASE), tag))
+        # a field of an embedded struct repeated (same name, same type) by the outer struct further down: selectors and
+        # reflect.FieldByName mean the shallow one, the unfolding lists the embedded one first
+        for f in list(st.fields):
+            if f.embedded and f.struct is not None and r.random() < 0.3:
+                inner = [g for g in f.struct.fields if g.struct is None and not g.embedded and g.name != '_' and g.name not in used]
+                if inner:
+                    g = r.choice(inner)
+                    used.add(g.name)
+                    st.fields.append(Field(g.name, g.ty, ''))
+        if all(f.name == '_' for f in st.fields):
+            st.fields.append(Field(fname(), r.choice(BASE)))
         self.structs.append(st)
         return st
 
@@ -353,6 +369,8 @@ func off[S any, F any](s *S, f *F) uintptr { return uintptr(unsafe.Pointer(f)) -
             # fill
             self.w('func fill_%s(s *%s, k int) {' % (st.name, st.name))
             for i, f in enumerate(st.fields):
+                if f.name == '_':
+                    continue
                 if f.struct is not None and not f.ptr:
                     self.w('\tfill_%s(&s.%s, k+%d)' % (f.struct.name, f.name, i + 1))
                 else:
@@ -536,7 +554,7 @@ func off[S any, F any](s *S, f *F) uintptr { return uintptr(unsafe.Pointer(f)) -
             T = e.gotype()
             pure = T[1:] if T.startswith('*') else T
             offexpr = 'rt.NoOffset'
-            if not e.crossing:
+            if not e.crossing and '_' not in e.path + [e.f.name]:
                 offexpr = 'off(s, &s.%s)' % e.sel()
             self.w('\t\t{Key: %s, Name: %s, Type: typeOf[%s](), Pure: typeOf[%s](), Off: func(s *%s) uintptr { return %s }},' % (
                 q(e.key()), q(e.f.name), T, pure, S, offexpr))
@@ -571,7 +589,7 @@ func off[S any, F any](s *S, f *F) uintptr { return uintptr(unsafe.Pointer(f)) -
             T = e.gotype()
             pure = T[1:] if T.startswith('*') else T
             offexpr = 'rt.NoOffset'
-            if not e.crossing:
+            if not e.crossing and '_' not in e.path + [e.f.name]:
                 offexpr = 'off(s, &s.%s)' % e.sel()
             self.w('\t\t{Key: %s, Name: %s, Type: typeOf[%s](), Pure: typeOf[%s](), Off: func(s *%s) uintptr { return %s }},' % (
                 q(e.key()), q(e.f.name), T, pure, S, offexpr))
@@ -660,7 +678,7 @@ func off[S any, F any](s *S, f *F) uintptr { return uintptr(unsafe.Pointer(f)) -
             if cn not in seent:
                 seent.add(cn)
                 res = self.resolve_type(L, cn)
-                if not res.crossing:
+                if not res.crossing and res.f.name != '_':
                     reqs.append(('type', res.gotype(), res))
         return reqs
 
@@ -812,7 +830,7 @@ func off[S any, F any](s *S, f *F) uintptr { return uintptr(unsafe.Pointer(f)) -
         shadowed entries (same key as an earlier one) that no by-name request can reach"""
         S = st.name
         r = self.r
-        idxs = [i for i, e in enumerate(L) if not e.crossing]
+        idxs = [i for i, e in enumerate(L) if not e.crossing and e.f.name != '_']
         shadowed = [i for i in idxs if self.resolve_name(L, L[i].key()) is not L[i]]
         others = [i for i in idxs if i not in shadowed]
         r.shuffle(others)
@@ -908,6 +926,24 @@ func off[S any, F any](s *S, f *F) uintptr { return uintptr(unsafe.Pointer(f)) -
             self.w('\tif pn, _ := rt.Derive(func() { _ = optics.ForSpectrum1[%s, %s](%s) }); !pn {\n\t\trt.Accepted("C02", c, "the name resolves to a field of another type (Reflector)")\n\t}' % (S, T2, q(e2.key())))
             self.w('\tif pn, _ := rt.Derive(func() { _ = optics.ForShape2[%s, %s, %s](%s, %s) }); !pn {\n\t\trt.Accepted("C02", c, "the name resolves to a field of another type (Shape2, second focus)")\n\t}' % (S, e1.gotype(), T2, q(e1.key()), q(e2.key())))
             self.case_end('C02/%s/%s' % (S, req), True)
+        # the field's type is a named type of the package; the request names a function-local type of the same name
+        # (it prints alike, it is another type, of another size)
+        for e in L:
+            T = e.gotype()
+            if e.crossing or e.f.struct is not None or T not in ('MyStr', 'MyInt', 'MyF', 'MyI8', 'MyBytes') or not ok_name(e.key()) or self.resolve_name(L, e.key()) is not e:
+                continue
+            req = 'ForProduct1/ForSpectrum1[%s, <local type %s>](%s)' % (S, T, e.key())
+            self.case_begin('C02', 'local-lookalike/must-fail', st, req, 'panic: the field has the package-level type %s, the focus is a local type of the same name' % T)
+            self.w('\tbase := optics.ForProduct1[%s, %s](%s) // the valid derivation comes first\n\t_ = base' % (S, T, q(e.key())))
+            self.w('\ttype %s struct{ a, b, c, d uint64 }' % T)
+            self.w('\tvar l optics.Lens[%s, %s]' % (S, T))
+            self.w('\tif pn, _ := rt.Derive(func() { l = optics.ForProduct1[%s, %s](%s) }); !pn {' % (S, T, q(e.key())))
+            self.w('\t\trt.Accepted("C02", c, "lens: the focus type only prints like the field\'s type")')
+            self.w('\t\trt.UseBogus("C02", c, fill_%s, func(s *%s) { l.Get(s); l.Put(s, %s{1, 2, 3, 4}) })' % (S, S, T))
+            self.w('\t}')
+            self.w('\tif pn, _ := rt.Derive(func() { _ = optics.ForSpectrum1[%s, %s](%s) }); !pn {\n\t\trt.Accepted("C02", c, "reflector: the focus type only prints like the field\'s type")\n\t}' % (S, T, q(e.key())))
+            self.case_end('C02/%s/%s' % (S, req), True)
+            break
         fams = ['ForProduct', 'ForSpectrum', 'ForShape']
         crossing_neg = [n for n in neg if 'embedded pointer' in n[3]]
         other_neg = [n for n in neg if 'embedded pointer' not in n[3]]
@@ -1183,6 +1219,7 @@ func off[S any, F any](s *S, f *F) uintptr { return uintptr(unsafe.Pointer(f)) -
 	if common.Batch == 0 {
 		rt.MapLens()
 		rt.JoinHeads()
+		rt.JoinComputedMap()
 	}
 }''' % (len(self.structs), len(self.roots)))
 
@@ -1215,7 +1252,7 @@ def q(s):
     return '"' + s.replace('\\', '\\\\').replace('"', '\\"').replace('\n', '\\n').replace('\t', '\\t') + '"'
 
 def ok_name(k):
-    return k != ''
+    return k != '' and k != '_'
 
 def first_key(s, f):
     for g in s.fields:
